@@ -13,6 +13,7 @@ import Oas3Model.Driver.Defaults
 import Oas3Model.Driver.Enum
 import Oas3Model.Driver.Cache
 import Oas3Model.Driver.Discr
+import Oas3Model.Driver.Valid
 open Lean Oas3.Driver
 
 def allOps : List (String × Handler) := List.flatten [
@@ -30,6 +31,7 @@ def allOps : List (String × Handler) := List.flatten [
   Oas3.Driver.Enum.ops,
   Oas3.Driver.Cache.ops,
   Oas3.Driver.Discr.ops,
+  Oas3.Driver.Valid.ops,
   []]
 
 def handleLine (line : String) : String :=
